@@ -9,7 +9,22 @@ import pandas as pd
 INDEX_KINDS = ("range", "offset", "step2", "datetime", "period")
 
 
+# further supported index kinds, used on reduced families (probed on the pinned tree: all accepted; a decreasing
+# RangeIndex is rejected by sktime's input check and therefore not "supported")
+INDEX_KINDS_EXTRA = ("tz", "irregular", "named", "int64", "periodQ")
+
+
 def make_index(kind, n):
+    if kind == "tz":
+        return pd.date_range("2020-03-28", periods=n, freq="12h", tz="Europe/Oslo")  # crosses a DST change
+    if kind == "irregular":
+        return pd.DatetimeIndex(pd.to_datetime("2020-01-01") + pd.to_timedelta(np.cumsum(1 + (np.arange(n) * 7) % 5), unit="D"))
+    if kind == "named":
+        return pd.RangeIndex(n, name="t")
+    if kind == "int64":
+        return pd.Index(np.cumsum(1 + (np.arange(n) * 3) % 4) + 2)
+    if kind == "periodQ":
+        return pd.period_range("2020Q1", periods=n, freq="Q")
     if kind == "range":
         return pd.RangeIndex(n)
     if kind == "offset":
